@@ -355,7 +355,7 @@ func (s StructDecl) homeRef() string {
 // method is refused)
 var paramNames = []string{"in", "from", "s", "p", "e", "i", "_"}
 var resultNames = []string{"out", "to", "d", "res", "e", "i"}
-var extraTypes = []string{"int", "string", "LInt", "*LInner", "ext.MyInt", "[]int", "bool", "[]LInt", "map[string]ext.MyInt", "[]*ext.Inner", "func(LInt) ext.MyInt", "*ext.Inner", "*LInner", "LInner", "*ext.Cat"}
+var extraTypes = []string{"int", "string", "LInt", "*LInner", "ext.MyInt", "[]int", "bool", "[]LInt", "map[string]ext.MyInt", "[]*ext.Inner", "func(LInt) ext.MyInt", "*ext.Inner", "*LInner", "LInner", "*ext.Cat", "*LNode", "[]LNode"}
 
 // GenShape draws the shape dimensions of a method (only legal combinations; C08 enumerates the
 // illegal ones separately).
